@@ -22,7 +22,7 @@ def run(ctx, sess):
     ctx.rule('C11.3', 'offset symmetry: the value added to the requested timestamp before the seek is the value subtracted from each delivered timestamp')
     ctx.rule('C11.4', 'iteration: from the seek point follow item_next until 0, verify the tag of every chunk, deliver the chunk just read')
     ctx.rule('C11.5', 'the index entry recorded for an annotation carries its timestamp and the offset of its chunk')
-    ctx.rule('C11.7', 'sample-id frames: the signal\'s sample_id_offset is applied exactly once to each value (added to an api id, subtracted from a file id) and no compare mixes an api-relative id with a file id (forward dataflow over every reader function that mentions the offset)')
+    ctx.rule('C11.7', 'sample-id frames: the signal\'s sample_id_offset is applied exactly once to each value (added to an api id, subtracted from a file id) and no compare mixes an api-relative id with a file id (forward dataflow over the annotation reader)')
     ctx.rule('C11.8', 'nothing indexed is dropped: the time-series commit returns without writing its INDEX only when the index holds no entry (or its buffers do not exist)')
     ctx.rule('C11.9', '"including all that share the same timestamp": the index-entry selection of jls_core_ts_seek either probes the entries in index order, or (any other search order, e.g. bisection) never leaves the search on an entry that is only known to equal the requested timestamp (the orderings <, =, > of the probed entry are tracked along the selection loop)')
     ctx.rule('C11.10', '"negative/offset ids": no annotation is refused because of the value of its timestamp: in jls_wr_annotation, jls_wr_ts_anno, jls_twr_annotation and the helpers they hand the timestamp to, no error return is control dependent on a condition over the timestamp - except an order check against the previous timestamp whose remembered value starts at INT64_MIN')
@@ -153,7 +153,7 @@ def run(ctx, sess):
             pass
     adjacency_rule(Sub(ctx), P)
     from .frames import frames_rule
-    frames_rule(ctx, P, 'C11.7')
+    frames_rule(ctx, P, 'C11.7', kinds=('annotation',), minimum=1)
     pending_index_rule(ctx, P, 'C11.8', ('src/wr_ts.c',))
     seek_first_equal_rule(ctx, P, 'C11.9')
     no_timestamp_rejection_rule(ctx, P, 'C11.10')
